@@ -127,6 +127,16 @@ template <class G, class F> static void normalize_case(const G& X, int off, Scal
   }
 }
 
+template <class G> static void uninit_normalize_case(const Scalar* raw, int off, Scalar fill, Chk& k, const Spec& s) {
+  if constexpr (has_normalize<G>::value) {
+    Guarded g(G::RepSize, off, fill, raw); Eigen::Map<G> m(g.data()); m.normalize();
+    k.require("uninit:normalize.guards", g.guards_ok(), "normalize through a view wrote outside");
+    k.bound("uninit:normalize.valid", (double)rot_norm_dev(s, toVL(m.coeffs())), (double)manif::Constants<Scalar>::eps, "normalize() through a view over off-norm data did not make it valid");
+    const G w(m);   // accepted by an owning object now
+    k.require("uninit:normalize.copy", std::memcmp(w.data(), g.data(), G::RepSize * sizeof(Scalar)) == 0, "owning copy of the normalised view differs");
+  }
+}
+
 vf::Outcome run_case(const vf::Case& c, const vf::RunCtx& ctx) {
   const Spec s = spec();
   Chk k(ctx);
@@ -221,6 +231,47 @@ vf::Outcome run_case(const vf::Case& c, const vf::RunCtx& ctx) {
       { Guarded g(D, off, fill, T.data()); MapT m(g.data()); m.setRandom(); k.require("twrite.guards:setRandom", g.guards_ok(), "tangent setRandom wrote outside"); }
       { Guarded g(D, off, fill, T.data()); MapT m(g.data()); m.setVee(U.hat()); check_twrite("setVee", g, U); }
       { Guarded g(D, off, fill, T.data()); MapT m(g.data()); m[wsel % D] = T[wsel % D]; m.coeffs()(wsel % D) = T.coeffs()(wsel % D); check_twrite("coeff access", g, T); }
+    }
+    // ---- a view is a view: data() is the user's pointer and reads follow later changes of the buffer (a snapshot taken at
+    //      construction would pass every comparison above)
+    {
+      Heap hx(R, off, X.data()), ht(D, off, T.data());
+      MapG mx(hx.data()); const MapCG cx(hx.data()); MapT mt(ht.data()); const MapCT ct(ht.data());
+      k.require("view.data()", (const void*)mx.data() == (const void*)hx.data() && (const void*)cx.data() == (const void*)hx.data() &&
+                (const void*)mt.data() == (const void*)ht.data() && (const void*)ct.data() == (const void*)ht.data() &&
+                (const void*)cx.coeffs().data() == (const void*)hx.data() && (const void*)ct.coeffs().data() == (const void*)ht.data(),
+                "data() / coeffs().data() of a view is not the address of the viewed buffer");
+      std::memcpy(hx.data(), Y.data(), R * sizeof(Scalar)); std::memcpy(ht.data(), U.data(), D * sizeof(Scalar));   // the user updates the buffer
+      auto same = [](const Scalar* a, const Scalar* b, int n) { return std::memcmp(a, b, n * sizeof(Scalar)) == 0; };
+      const GroupT gx(mx), gc(cx); const TangentT tt(mt), tc(ct);
+      k.require("view.live:coeffs", same(gx.data(), Y.data(), R) && same(gc.data(), Y.data(), R) && same(tt.data(), U.data(), D) && same(tc.data(), U.data(), D),
+                "a view created before the buffer was modified still reads the old coefficients (the view is a copy)");
+      std::string wn; long b2 = 0, t2 = 0;
+      k.bound("view.live:ops", compare(read_ops(Y, X, U, T, pt), read_ops(cx, X, ct, T, pt), wn, b2, t2), 16 * kU, "operations on a const view do not follow the buffer: " + wn);
+      k.bound("view.live:ops(mutable)", compare(read_ops(Y, X, U, T, pt), read_ops(mx, X, mt, T, pt), wn, b2, t2), 16 * kU, "operations on a mutable view do not follow the buffer: " + wn);
+    }
+    // ---- a mutable view can be placed over a buffer that does not hold a valid element yet (that is how a buffer is
+    //      initialised through a view, and the only way normalize() through a view has anything to do)
+    {
+      const int kind = wsel % 3;   // zeros | the fill pattern | a valid element scaled off-norm
+      std::vector<Scalar> raw(R);
+      const Scalar sc = Scalar(0.5) + Scalar(0.15) * Scalar(wsel);   // 0.5 .. 1.85
+      for (int i = 0; i < R; ++i) raw[i] = kind == 0 ? Scalar(0) : kind == 1 ? fill : X.coeffs()(i) * sc;
+      try {
+        { Guarded g(R, off, fill, raw.data()); MapG m(g.data()); m.setIdentity();
+          k.require("uninit:setIdentity", g.guards_ok() && std::memcmp(g.data(), GroupT::Identity().data(), R * sizeof(Scalar)) == 0, "setIdentity through a view over an uninitialised buffer"); }
+        { Guarded g(R, off, fill, raw.data()); MapG m(g.data()); m = Y;
+          k.require("uninit:=owning", g.guards_ok() && std::memcmp(g.data(), Y.data(), R * sizeof(Scalar)) == 0, "assignment through a view over an uninitialised buffer"); }
+        { Guarded g(R, off, fill, raw.data()); MapG m(g.data()); m.setRandom();
+          k.require("uninit:setRandom.guards", g.guards_ok(), "setRandom through a view over an uninitialised buffer wrote outside");
+          k.bound("uninit:setRandom.valid", (double)rot_norm_dev(s, toVL(m.coeffs())), (double)manif::Constants<Scalar>::eps, "setRandom through a view over an uninitialised buffer produced an invalid element"); }
+        if (kind == 2) uninit_normalize_case<GroupT>(raw.data(), off, fill, k, s);
+        { Guarded g(D, off, fill, raw.data()); MapT m(g.data()); m.setZero();
+          k.require("uninit:t.setZero", g.guards_ok() && std::memcmp(g.data(), TangentT::Zero().data(), D * sizeof(Scalar)) == 0, "setZero through a tangent view over an uninitialised buffer"); }
+      } catch (const std::exception& e) {
+        k.require("uninit:nothrow", false, std::string("placing a mutable view over a buffer that is not (yet) a valid element, or initialising it through the view, threw: ") + e.what());
+      }
+      k.label(kind == 0 ? "uninit buffer: zeros" : kind == 1 ? "uninit buffer: fill pattern" : "uninit buffer: off-norm element");
     }
     k.o.nontrivial = off == 1 && !T.coeffs().isZero(0) && !(X.coeffs().array() == GroupT::Identity().coeffs().array()).all();
     k.label(off ? "mis-aligned buffer" : "aligned buffer");
